@@ -259,13 +259,15 @@ class PolicyStatus(Harness):
         return {'json': self.json}
 
     def inputs(self):
-        return {'pk': zx.fresh_str('pk', 2, OL.NAMECH)}
+        # outdated: the policy is a built-in one of which a newer version exists (the tool then adds a note; the note is not part of the verdict)
+        return {'pk': zx.fresh_str('pk', 2, OL.NAMECH), 'outdated': zx.fresh_bool('outdated')}
 
     def run(self, M, inp):
         if zx.active():
             zx.cur().stdout = []
         kex, key = ['ab'], ['unknown-key-type']
         p = make_policy(M, {'_kex': [inp['pk']]}, False, False)
+        p._updated_builtin_policy_available = bool(inp['outdated'])
         conns = [AE.Conn([BANNER, kexinit_pkt(kex, key)], 'close')]
         cj = OL.CaptureJson()
         with AE.patched(M.ssh_audit, json=cj):
